@@ -77,10 +77,17 @@ class MathNS:
     radians = staticmethod(theory.deg2rad)
     degrees = staticmethod(theory.rad2deg)
     exp = staticmethod(theory.exp)
+    tan = staticmethod(theory.tan)
 
     @staticmethod
     def isclose(*a, **k):
         raise Unsupported("math.isclose")
+
+
+class TimeNS:
+    @staticmethod
+    def time():
+        return 0.0
 
 
 class WarningsNS:
